@@ -31,7 +31,7 @@
   The proofs are in `Proofs/Rewrite.lean`.
 -/
 import Ctrmml.Proofs.Rewrite
-import Ctrmml.Proofs.OptSubPass
+import Ctrmml.Proofs.OptMeasure
 namespace Ctrmml.C01
 open Ctrmml Ctrmml.Tree Ctrmml.Expand Ctrmml.Rewrite Tables
 
@@ -1087,6 +1087,101 @@ theorem C01_optimize_preserves (song : Song) (minScore : Int) (fuel : Nat) (r : 
   rw [← hlast]
   exact C01_passesN_preserve_nodepth song l hc id (hok id hid)
     (fun T hT t' ht' => validAll_validOK T (hall T hT) id t' ht')
+
+end Ctrmml.C01
+
+/-! ## termination of the pass loop -/
+namespace Ctrmml.C01
+open Ctrmml Ctrmml.Tree Ctrmml.Expand Ctrmml.Rewrite Ctrmml.Opt Ctrmml.OptSteps Tables
+
+theorem isBracket_ls : isBracket lsEv = true := by decide
+theorem isBracket_lb : isBracket lbEv = true := by decide
+theorem isBracket_le (n : Int) : isBracket (leEv n) = true := by
+  show (ev_LOOP_END == ev_LOOP_START || ev_LOOP_END == ev_LOOP_END || ev_LOOP_END == ev_LOOP_BREAK) = true
+  decide
+
+/-- **A pass that folds a loop strictly decreases the termination measure** `(number of events,
+number of events that are not loop brackets/breaks)` lexicographically: it erases `L ≥ 3` events,
+the first of which is not a bracket, and inserts 2 or 3 brackets. -/
+theorem C01_fold_pass_decreases {song : Song} {m : SAMap} {subId : Int} {s' : Song} {best : Match} {subId' : Int}
+    (hwf : SongWF song) (hfb : findBestMatch song m subId = .ok (s', best, subId'))
+    (hl : ¬ best.loopScore < best.subScore) (hs : 1 ≤ best.bestScore) :
+    totalEvents s' < totalEvents song ∨
+      (totalEvents s' = totalEvents song ∧ playedEvents s' < playedEvents song) := by
+  rcases findBestMatch_spec hfb with ⟨h0, _, _⟩ | ⟨_, ⟨srcT, srcPos, hfm⟩, m', happ⟩
+  · omega
+  obtain ⟨_, _, hss, hlo⟩ := findMatch_spec hwf.nodup hfm
+  have hL3 : 3 ≤ best.loopLength := by
+    unfold Match.bestScore at hs
+    unfold Match.loopScore at hl hs
+    split at hs <;> omega
+  have hok := hlo (by omega)
+  obtain ⟨len0, hf⟩ := hok.fml
+  obtain ⟨src, _, hsrc, _, _⟩ := findMatchLength_spec hf
+  obtain ⟨w1, w2, w3⟩ := hwf.track hsrc
+  have hw := hok.window hsrc w2
+  have hrep := repeats_small hok.lt hw.len w3
+  rw [applyMatch_loop_eq hsrc hl] at happ
+  simp only [Except.ok.injEq, Prod.mk.injEq] at happ
+  rw [← happ.1]
+  obtain ⟨p, hp⟩ : ∃ p, p = best.position := ⟨_, rfl⟩
+  obtain ⟨q, hq⟩ : ∃ q, q = best.loopPosition := ⟨_, rfl⟩
+  obtain ⟨L, hL⟩ : ∃ L, L = best.loopLength := ⟨_, rfl⟩
+  have hpq : p < q := by rw [hp, hq]; exact hok.lt
+  rw [← hL] at hL3
+  rw [← hp, ← hq, ← hL] at hw hrep ⊢
+  -- the erased events
+  have hBlen : ((src.drop q).take L).length = L := by
+    rw [List.length_take, List.length_drop]; have := hw.len; omega
+  obtain ⟨e, he, hpl⟩ := hw.plain
+  have hB1 : 1 ≤ wsum (fun e => if isBracket e then 0 else 1) ((src.drop q).take L) := by
+    have : (src.drop q).take L = e :: ((src.drop q).drop 1).take (L - 1) := by
+      have h1 : (src.drop q).take L = (src.drop q).take (0 + 1) ++ ((src.drop q).drop (0 + 1)).take (L - 1) := by
+        rw [← List.take_add]; congr 1; omega
+      rw [take_succ_of_get (j := 0) (by simpa using he)] at h1
+      simpa using h1
+    rw [this, wsum_cons]
+    have : isBracket e = false := by
+      unfold isBracket
+      simp [hpl.1, hpl.2.1, hpl.2.2]
+    simp [this]
+  -- both weights
+  have t1 := songW_setTrack (fun _ => 1) hwf.nodup hsrc (foldedTrack src p q L)
+  have t2 := foldedTrack_weight (fun _ => 1) hpq hw.len hrep
+  have n1 := songW_setTrack (fun e => if isBracket e then 0 else 1) hwf.nodup hsrc (foldedTrack src p q L)
+  have n2 := foldedTrack_weight (fun e => if isBracket e then 0 else 1) hpq hw.len hrep
+  simp only [isBracket_ls, isBracket_lb, isBracket_le, if_true] at n2
+  rw [wsum_one, wsum_one, wsum_one, hBlen] at t2
+  rw [wsum_one, wsum_one] at t1
+  unfold totalEvents playedEvents
+  by_cases hb : L % (q - p) = 0
+  · simp only [hb, ne_eq, not_true_eq_false, if_false] at t2 n2
+    left; omega
+  · simp only [hb, ne_eq, not_false_eq_true, if_true] at t2 n2
+    by_cases h4 : 4 ≤ L
+    · left; omega
+    · right
+      constructor <;> omega
+
+/-- **Termination of the optimiser** — NOT proved.  The statement: for `0 ≤ minScore` the pass loop
+of `Opt.optimize` ends on every well-formed song, i.e. with enough fuel the run does not end in
+`.error .fuel`.
+
+What is proved of it: `C01_fold_pass_decreases` — a pass that folds a loop strictly decreases the
+measure `(totalEvents, playedEvents)`.  What is missing:
+* the same for a pass that extracts a subroutine: it has to be shown that `find_subroutines`
+  replaces at least the `subRepeats` occurrences `find_match` counted (then the pass removes
+  exactly `score ≥ 1` events net); `find_match` counts matches of length `≥ subLength` while
+  `find_subroutines` asks for `find_match_length = subLength` on the mutated song with a spliced
+  stack list, so this is a correspondence between two different searches;
+* `Opt.analyzeTrack` reports the exhaustion of its own recursion budget (`tracks.length + 2`)
+  with the same `OErr.fuel`; that this budget is never exhausted (the `parsing` guard bounds the
+  recursion by the number of distinct call parameters) is not proved. -/
+def C01_optimize_terminates_statement : Prop :=
+  ∀ (song : Song) (minScore : Int), 0 ≤ minScore → SongWF song →
+    (song.tracks.map (·.1)).Pairwise (· < ·) → (∀ p ∈ song.tracks, p.1 < 32767) →
+    ∀ fuel, (totalEvents song + 1) * (totalEvents song + 1) < fuel →
+      optimize validAll minScore fuel song (initialSubId song) [] ≠ .error .fuel
 
 end Ctrmml.C01
 
